@@ -24,13 +24,47 @@ type outcome struct {
 	accepted, encoded bool
 	nodes             int
 	segments          int
+	wholeFile         bool // File.Size/Encode/EncodeSW judged on the whole file in box-tree / progressive mode
 }
 
 var last outcome
 
+// overflowFail: an encoder that runs out of a buffer of Size() bytes. Every leaf encoder allocates
+// FixedSliceWriter(Size()) itself, so a Size() that is too small shows as this error from Encode AND EncodeSW; it is a
+// violation of "Size() == bytes written", not a refusal.
+func overflowFail(what, via string, err error, size uint64) *harness.Fail {
+	return harness.Failf("C02|"+what+"|Encode/EncodeSW overflows a buffer of Size() bytes", "%s: %v (Size() %d)", via, err, size)
+}
+
+// oversized: third pass, EncodeSW into a buffer that is 17 bytes larger than Size(). An encoder that writes through
+// the caller's slice writer (containers, mdat, files) and is handed exactly Size() bytes cannot show an overestimate
+// other than as "wrote fewer bytes"; with room to spare an underestimate shows as an offset beyond Size() instead of an
+// error that could be mistaken for a refusal. The bytes must be those of the first encoding.
+func oversized(what string, size func() uint64, encSW func(bits.SliceWriter) error, first []byte) *harness.Fail {
+	want := size()
+	sw := boxprop.DirtySW(int(want) + 17)
+	err := encSW(sw)
+	if err == nil {
+		err = sw.AccError()
+	}
+	if err != nil {
+		if boxprop.IsOverflow(err) {
+			return overflowFail(what, "EncodeSW into Size()+17 bytes", err, want)
+		}
+		return harness.Failf("C02|"+what+"|EncodeSW into a larger buffer fails after a successful encoding", "%v (Size %d)", err, want)
+	}
+	if uint64(sw.Offset()) != want {
+		return harness.Failf("C02|"+what+"|EncodeSW into a larger buffer stops at an offset other than Size()", "offset %d, Size() %d", sw.Offset(), want)
+	}
+	if !bytes.Equal(sw.Bytes(), first) {
+		return harness.Failf("C02|"+what+"|EncodeSW into a larger buffer gives different bytes", "%d vs %d bytes, first difference at %d", sw.Len(), len(first), firstDiff(sw.Bytes(), first))
+	}
+	return nil
+}
+
 // encodeBoth encodes x (anything with Size/Encode/EncodeSW) and checks Size()==bytes written for both
-// encoders, that EncodeSW into a buffer of exactly Size() bytes does not overflow and fills it, and that
-// both outputs are identical.
+// encoders, that EncodeSW into a buffer of exactly Size() bytes does not overflow and fills it, that
+// both outputs are identical, and that EncodeSW into a larger buffer stops at Size().
 func encodeBoth(what string, size func() uint64, enc func(*bytes.Buffer) error, encSW func(bits.SliceWriter) error, optimise, swFirst bool) ([]byte, *harness.Fail) {
 	before := size()
 	if swFirst {
@@ -42,6 +76,9 @@ func encodeBoth(what string, size func() uint64, enc func(*bytes.Buffer) error, 
 			errS = sw.AccError()
 		}
 		after := size()
+		if boxprop.IsOverflow(errS) {
+			return nil, overflowFail(what, "EncodeSW (first encoding)", errS, before)
+		}
 		if errS != nil {
 			return nil, nil // refused: no claim (same rule as for Encode below)
 		}
@@ -63,11 +100,17 @@ func encodeBoth(what string, size func() uint64, enc func(*bytes.Buffer) error, 
 		if err := encSW(sw2); err != nil || sw2.AccError() != nil || !bytes.Equal(sw2.Bytes(), first) {
 			return nil, harness.Failf("C02|"+what+"|second EncodeSW differs from the first", "err %v/%v, %d vs %d bytes, first difference at %d", err, sw2.AccError(), sw2.Len(), len(first), firstDiff(sw2.Bytes(), first))
 		}
+		if f := oversized(what, size, encSW, first); f != nil {
+			return nil, f
+		}
 		return first, nil
 	}
 	var buf bytes.Buffer
 	errW := enc(&buf)
 	after := size()
+	if boxprop.IsOverflow(errW) {
+		return nil, overflowFail(what, "Encode (first encoding)", errW, before)
+	}
 	if errW != nil {
 		return nil, nil // encoder refuses: no claim here (C01 judges encode errors after a successful decode)
 	}
@@ -90,6 +133,9 @@ func encodeBoth(what string, size func() uint64, enc func(*bytes.Buffer) error, 
 	}
 	if !bytes.Equal(sw.Bytes(), buf.Bytes()) {
 		return nil, harness.Failf("C02|"+what+"|Encode and EncodeSW bytes differ", "")
+	}
+	if f := oversized(what, size, encSW, buf.Bytes()); f != nil {
+		return nil, f
 	}
 	return buf.Bytes(), nil
 }
@@ -117,18 +163,31 @@ func checkSizes(c boxprop.Case) *harness.Fail {
 		return nil
 	}
 	last.accepted = true
+	// Info: level "" in the case stands for "all:1" (what every case used before the field existed), "none" for the
+	// empty specificBoxLevels argument
+	level := c.InfoLevel
+	switch level {
+	case "":
+		level = "all:1"
+	case "none":
+		level = ""
+	}
 	infoText := func() string {
 		var b bytes.Buffer
 		if d.File != nil {
-			_ = d.File.Info(&b, "all:1", "", "  ")
+			_ = d.File.Info(&b, level, "", "  ")
 		} else {
-			_ = d.Box.Info(&b, "all:1", "", "  ")
+			_ = d.Box.Info(&b, level, "", "  ")
 		}
 		return b.String()
 	}
+	infoFirst := c.Info && c.InfoFirst
+	if infoFirst {
+		_ = infoText() // a structure that Info has looked at encodes like one that it has not (compared below)
+	}
 	// ---- box tree (every top-level box of the decoded input)
 	var outTree []byte
-	for _, b := range d.TopBoxes() {
+	for i, b := range d.TopBoxes() {
 		b := b
 		out, f := encodeBoth(b.Type(), b.Size, func(w *bytes.Buffer) error { return b.Encode(w) }, b.EncodeSW, false, c.SWFirst)
 		if f != nil {
@@ -138,22 +197,64 @@ func checkSizes(c boxprop.Case) *harness.Fail {
 			return nil
 		}
 		outTree = append(outTree, out...)
-		// encoding twice, and with Info in between, gives identical bytes
+		// encoding twice, and with Info in between, gives identical bytes. The Info call sits after the first encoding of
+		// the first box only (the file-level Info walks every box) unless the case says otherwise
 		var info1 string
-		if c.Info {
+		info := c.Info && (i == 0 || !c.InfoFirst)
+		if info {
 			info1 = infoText()
 		}
 		var again bytes.Buffer
 		if err := b.Encode(&again); err != nil || !bytes.Equal(again.Bytes(), out) {
 			return harness.Failf("C02|"+b.Type()+"|second Encode differs from the first", "err %v, %d vs %d bytes", err, again.Len(), len(out))
 		}
-		if c.Info && infoText() != info1 {
+		if info && infoText() != info1 {
 			return harness.Failf("C02|"+b.Type()+"|Info output changes between calls", "")
 		}
 	}
 	last.encoded = true
 	if diff := boxprop.SizeWalk(outTree, d.TopBoxes()); diff != nil {
 		return harness.Failf(diff.Key, "%s", diff.Msg)
+	}
+	if infoFirst {
+		// the same input, decoded afresh and encoded without any Info call
+		if d0, err := boxprop.Decode(in, c.Level, c.Path); err == nil && !d0.Nil() {
+			var plain bytes.Buffer
+			ok := true
+			for _, b := range d0.TopBoxes() {
+				if err := b.Encode(&plain); err != nil {
+					ok = false
+					break
+				}
+			}
+			if ok && !bytes.Equal(plain.Bytes(), outTree) {
+				return harness.Failf("C02|"+d.TopBoxes()[0].Type()+"|Info before the first encoding changes the bytes written", "level %q: %d vs %d bytes, first difference at %d", level, len(outTree), plain.Len(), firstDiff(outTree, plain.Bytes()))
+			}
+		}
+	}
+	// ---- the whole file through File.Size / File.Encode / File.EncodeSW, box by box (progressive file, or box-tree
+	// mode of a fragmented one; File.Size follows the encode mode): Size() == bytes written, the bytes are those of the
+	// boxes encoded one by one, and the lock-step walk holds on that output as well
+	if f := d.File; f != nil {
+		f.FragEncMode, f.EncOptimize = mp4.EncModeBoxTree, mp4.OptimizeNone
+		what := "File(progressive)"
+		if f.IsFragmented() {
+			what = "File(box tree)"
+		}
+		whole, fl := encodeBoth(what, f.Size, func(w *bytes.Buffer) error { return f.Encode(w) }, f.EncodeSW, false, c.SWFirst)
+		if fl != nil {
+			return fl
+		}
+		if whole == nil {
+			return harness.Failf("C02|"+what+"|File encoding fails although every box encodes on its own", "")
+		}
+		if !bytes.Equal(whole, outTree) {
+			return harness.Failf("C02|"+what+"|File encoding differs from its boxes encoded one by one", "%d vs %d bytes, first difference at %d", len(whole), len(outTree), firstDiff(whole, outTree))
+		}
+		if diff := boxprop.SizeWalk(whole, f.Children); diff != nil {
+			return harness.Failf(diff.Key, "%s: %s", what, diff.Msg)
+		}
+		last.wholeFile = true
 	}
 	last.nodes = bytes.Count(outTree, nil)
 	if d.File == nil || !d.File.IsFragmented() {
@@ -213,6 +314,9 @@ func checkSizes(c boxprop.Case) *harness.Fail {
 	}
 	var whole bytes.Buffer
 	if err := f.Encode(&whole); err != nil {
+		if boxprop.IsOverflow(err) {
+			return overflowFail("File(segment mode)", "Encode", err, f.Size())
+		}
 		return nil
 	}
 	if got := f.Size(); got != uint64(whole.Len()) {
@@ -233,7 +337,7 @@ func run(t *testing.T, name string, cfg boxprop.GenConfig) {
 		c := boxprop.Gen(rt, cfg)
 		raw, _ := json.Marshal(c)
 		f := harness.Guarded(func() *harness.Fail { return checkSizes(c) })
-		cls := []string{"level-" + c.Level, "path-" + c.Path}
+		cls := []string{"level-" + c.Level, "path-" + c.Path, "seedkind-" + c.SeedKind()}
 		if c.Synth != nil {
 			cls = append(cls, "synth", "synth-"+c.Origin)
 		}
@@ -252,7 +356,16 @@ func run(t *testing.T, name string, cfg boxprop.GenConfig) {
 			}
 		}
 		if c.Info {
-			cls = append(cls, "info-between-encodes")
+			cls = append(cls, "info-between-encodes", "info-level-"+map[string]string{"": "all:1"}[c.InfoLevel]+c.InfoLevel)
+			if c.InfoFirst {
+				cls = append(cls, "info-before-first-encode")
+			}
+		}
+		if last.wholeFile {
+			cls = append(cls, "whole-file-size-vs-encode")
+		}
+		if c.SWFirst {
+			cls = append(cls, "sw-first")
 		}
 		nt := last.encoded && (c.Level == "file" || len(c.Muts) > 0 || c.Synth != nil)
 		harness.Rec.Case(nt, raw, cls...)
